@@ -239,7 +239,7 @@ private:
     {
         DepthControl(int& depth);
         ~DepthControl();
-        int depth_;
+        int& depth_;
     };
     friend struct DepthControl;
 
